@@ -1,6 +1,6 @@
 SPECIFICATION Spec
 CONSTANTS
-  Models <- MC_Models
+  Models <- MC_Models0
   Solvers <- MC_Solvers2
   Blocks <- MC_Blocks
   Shape <- MC_Shape
@@ -14,6 +14,7 @@ CONSTANTS
   Hyp_IdResetPerModel = FALSE
   Hyp_SharedFunctions = FALSE
   Hyp_RhsCachedByName = FALSE
+  Hyp_SteadyOneShot = FALSE
 INVARIANT TypeOK
 INVARIANT C17_HistoryIndependent
 INVARIANT C17_ReparseClean
